@@ -25,7 +25,8 @@ type qa struct {
 	pop              func() (int, bool)
 	popAnyway        func() (int, bool) // nil: same as pop, and pop hands out remaining items after close
 	close            func()
-	drainsAfterClose bool // pop itself returns remaining items after close (sync queue)
+	drainsAfterClose bool               // pop itself returns remaining items after close (sync queue)
+	tryPop           func() (int, bool) // non-blocking pop, if the queue has one
 }
 
 func iv(v interface{}, err error) (int, bool) {
@@ -70,7 +71,14 @@ var makers = []func() *qa{
 					return 0, false
 				}
 				return v.(int), true
-			}, close: x.Close, drainsAfterClose: true}
+			}, close: x.Close, drainsAfterClose: true,
+			tryPop: func() (int, bool) {
+				v, ok := x.TryPop()
+				if !ok || v == nil {
+					return 0, false
+				}
+				return v.(int), true
+			}}
 	},
 }
 
@@ -113,6 +121,7 @@ func condScenario(mk func() *qa, k int, prod [][]int, closer, anyway, prior bool
 			x := mk()
 			res := make([]popRes, k)
 			accepted := map[int]bool{}
+			var tried []int // items taken by non-blocking pops
 			for i := 0; i < k; i++ {
 				i := i
 				w.Go(fmt.Sprintf("consumer%d", i), func() {
@@ -132,12 +141,26 @@ func condScenario(mk func() *qa, k int, prod [][]int, closer, anyway, prior bool
 				prodThreads = append(prodThreads, w.Go(fmt.Sprintf("producer%d", pi), func() {
 					for _, it := range items {
 						var ok bool
-						if prior && x.addPrior != nil {
+						switch {
+						case it == 0: // a non-blocking pop issued by the producer thread
+							if v, got := x.tryPop(); got {
+								w.Touch()
+								tried = append(tried, v)
+							}
+							continue
+						case it < 0 && x.addPrior != nil: // this one item goes in with the prior add
+							it = -it
 							ok = x.addPrior(it)
-						} else {
+						case it < 0:
+							it = -it
+							ok = x.add(it)
+						case prior && x.addPrior != nil:
+							ok = x.addPrior(it)
+						default:
 							ok = x.add(it)
 						}
 						if ok {
+							w.Touch()
 							accepted[it] = true
 						}
 					}
@@ -155,6 +178,12 @@ func condScenario(mk func() *qa, k int, prod [][]int, closer, anyway, prior bool
 			// every consumer returned (otherwise the execution deadlocks and never gets here)
 			seen := map[int]bool{}
 			got := 0
+			for _, v := range tried {
+				if seen[v] || !accepted[v] {
+					w.Failf("TryPop handed out item %d twice or an item never accepted: %s", v, fmtRes(res))
+				}
+				seen[v] = true
+			}
 			for _, r := range res {
 				if r.ok {
 					if seen[r.v] {
@@ -174,7 +203,7 @@ func condScenario(mk func() *qa, k int, prod [][]int, closer, anyway, prior bool
 				}
 			} else if (anyway && x.popAnyway != nil) || (x.drainsAfterClose && closeAfterProd) {
 				// items accepted before the close are handed out by draining pops: min(k, accepted) come out
-				want := len(accepted)
+				want := len(accepted) - len(tried)
 				if want > k {
 					want = k
 				}
@@ -300,6 +329,20 @@ func scenarios(r *ev.Run) []*mc.Scenario {
 		if hasPrior {
 			scs = append(scs, condScenario(mk, 2, [][]int{{1, 2}}, false, false, true, false))
 			scs = append(scs, condScenario(mk, 2, [][]int{{1}, {2}}, false, true, true, false))
+		}
+		if hasPrior {
+			// one producer mixing the ordinary and the prior add
+			scs = append(scs, condScenario(mk, 2, [][]int{{1, -2}}, false, false, false, false))
+			scs = append(scs, condScenario(mk, 2, [][]int{{-1, 2}}, false, false, false, false))
+			scs = append(scs, condScenario(mk, 3, [][]int{{1, -2, 3}}, false, false, false, false))
+			scs = append(scs, condScenario(mk, 2, [][]int{{1}, {-2}}, false, hasAnyway, false, false))
+		}
+		if mk().tryPop != nil {
+			// blocking and non-blocking pops mixed: the producer takes an item back in between
+			scs = append(scs, condScenario(mk, 1, [][]int{{1, 0, 2}}, false, false, false, false))
+			scs = append(scs, condScenario(mk, 2, [][]int{{1, 0, 2, 3}}, false, false, false, false))
+			scs = append(scs, condScenario(mk, 1, [][]int{{1, 2}, {0, 3}}, false, false, false, false))
+			scs = append(scs, condScenario(mk, 2, [][]int{{1, 0, 2}}, true, false, false, true))
 		}
 		// (c) mixed add/close races
 		scs = append(scs, condScenario(mk, 2, [][]int{{1}}, true, false, false, false))
